@@ -269,6 +269,10 @@ func (s *sim) genCreateOrder(w *cs.World) *cs.PlannedTx {
 func (s *sim) genEditDelete(w *cs.World, del bool) *cs.PlannedTx {
 	chain := []uint64{1, 1, 2}[w.Src.Int("ordchain", 0, 2)]
 	orders := s.openOrders(chain)
+	if len(orders) == 0 { // try the other book before falling back to creating an order
+		chain = 3 - chain
+		orders = s.openOrders(chain)
+	}
 	if len(orders) == 0 {
 		return s.genCreateOrder(w)
 	}
